@@ -235,7 +235,24 @@ func (t TypedListSchema[UnserializedType, ItemType]) UnserializeType(data any) (
 	if err != nil {
 		return result, err
 	}
-	return unserialized.([]UnserializedType), nil
+	if typed, ok := unserialized.([]UnserializedType); ok {
+		return typed, nil
+	}
+	// The list is built from the items' reflected type, which is not UnserializedType itself for items such as
+	// TypedObjectSchema.Any(): hand the items over one by one.
+	v := reflect.ValueOf(unserialized)
+	result = make([]UnserializedType, v.Len())
+	for i := range result {
+		item, ok := v.Index(i).Interface().(UnserializedType)
+		if !ok {
+			return nil, &ConstraintError{
+				Message: fmt.Sprintf("Unexpected item type %T in unserialized list", v.Index(i).Interface()),
+				Path:    []string{fmt.Sprintf("[%d]", i)},
+			}
+		}
+		result[i] = item
+	}
+	return result, nil
 }
 
 func (t TypedListSchema[UnserializedType, ItemType]) ValidateType(data []UnserializedType) error {
